@@ -2,6 +2,7 @@ package main
 
 import (
 	"fmt"
+	"unsafe"
 	"os"
 	"path/filepath"
 	"strings"
@@ -59,6 +60,12 @@ var c19BigHash = func() string {
 }()
 
 var c19Corpus = []string{
+	// members of the object that have no value form: whatever the engine makes of them
+	`hv(string(Ch)); hv(string(Fn)); hv(string(Raw)); hv(string(Slots)); hv(string(Any)); hv(sprintf("%v %s %d", Ch, Fn, Slots)); return [Small, Wide, type(Ch), type(Slots), Retries, Next];`,
+	// several mistakes in one script: which one is reported must not vary
+	`function one(a) { return a; } function two(a, b) { return a + b; } function three(a, b, c) { return a; } x = one(1, 2); y = two(1); z = three(); return x;`,
+	`function p(a) { return a; } function q(a) { return a; } if (A > 100) { return p(); } if (A > 200) { return q(1, 2); } return nosuch1(1) + nosuch2(2) + p(1, 2) + q();`,
+	`x = undefined_one(1); y = undefined_two(2); z = undefined_three(3); return x;`,
 	// keys that read as numbers without behaving like them, and number-like strings between numbers
 	`h = {"nan": 1, "NaN": 2, 3: "three", 10: "ten", "inf": 4, "-0": 5, 0: 6, "1e400": 7, 2.5: 8, "-inf": 9}; hv(string(h)); hv(keys(h)); foreach k, v in h { hv(k); } return len(h);`,
 	`ports = {80: "http", 443: "https", "53/udp": "dns", 22: "ssh", "8080": "alt", "_x": 1, "9": 2}; hv(keys(ports)); foreach k, v in ports { hv(k); hv(v); } return string(ports);`,
@@ -173,6 +180,14 @@ type c19PtrObj struct {
 	Ratio   *float64
 	Next    *c19PtrObj
 	M       map[string]interface{}
+	// members whose only printable form would be an address
+	Ch    chan int
+	Fn    func()
+	Raw   unsafe.Pointer
+	Slots [2]*int
+	Any   interface{}
+	Small int8
+	Wide  uint16
 }
 
 // c19Object returns a constructor: every execution of a case builds its own
@@ -186,7 +201,9 @@ func c19Object(c *verifsim.Chooser) (func() interface{}, string) {
 			n, l, r := 3, "lbl", 0.5
 			pad := make([]byte, 64) // move the allocation around a little
 			_ = pad
-			return &c19PtrObj{A: 1, B: 2, C: 3, S: "hall", Items: []int{2, 1}, Retries: &n, Label: &l, Ratio: &r, Next: &c19PtrObj{A: 9}, M: map[string]interface{}{"p": &n, "q": 1}}
+			k := 7
+			return &c19PtrObj{A: 1, B: 2, C: 3, S: "hall", Items: []int{2, 1}, Retries: &n, Label: &l, Ratio: &r, Next: &c19PtrObj{A: 9}, M: map[string]interface{}{"p": &n, "q": 1},
+				Ch: make(chan int), Fn: func() {}, Raw: unsafe.Pointer(&k), Slots: [2]*int{&k, &n}, Any: &k, Small: 3, Wide: 9}
 		}, "struct with pointer members"
 	}
 	ob, d := c19ObjectValue(c)
@@ -382,6 +399,14 @@ func siteFunc(site string) string {
 	return site
 }
 
+// scripts with mistakes involving reserved words, several mistakes at once,
+// and the lexer / parser edge table of C08 (the text of an error is a result)
+var c19Erroneous = append([]string{
+	"function f() { local for; }", "foreach k, if in [1] { x = 1; }", "local while;", "function function() { }", "x = return;", "foreach in in in { }",
+	"function a(x) { return x; } function b(x) { return x; } return a() + b(1, 2);", "return nosuch(1) + alsonot(2);", "x = ; y = ); z = ];",
+	"switch (1) { case case { } }", "if (else) { }", "return true false;", "function f(a, a) { return a; } return f(1);",
+}, c08LexEdges...)
+
 // crossProcess runs the shipped driver (plain build of cmd/evalfilter, no
 // seam at all) several times on the same script and document: separate
 // processes have separate map-iteration seeds and address-space layouts, and
@@ -394,7 +419,10 @@ func (p *c19) crossProcess(c *verifsim.Chooser, st *Stats, render bool) *Outcome
 		return o
 	}
 	var text string
-	if c.Intn(3) == 0 {
+	if k := c.Intn(4); k == 3 {
+		// text that does not prepare: the error message is a result too
+		text = c19Erroneous[c.Intn(len(c19Erroneous))]
+	} else if k == 0 {
 		text = c19Corpus[c.Intn(len(c19Corpus))]
 	} else {
 		text = GenScript(c, GenCfg{Funcs: true, Hashes: true, TieKeys: true, Prints: true, MaxStmts: 7}).Text
